@@ -34,13 +34,14 @@ class EnsembleSampler:
         self._rng = np.random.Generator(np.random.PCG64(seed))
 
     def _lp(self, z, kind):
+        before = np.array(z, dtype=np.float64, copy=True)
         if self.vectorize:
             val = self.log_prob_fn(z, *self.args, **self.kwargs)
         else:
             val = np.array([self.log_prob_fn(zi, *self.args, **self.kwargs) for zi in z])
         v = np.asarray(val, dtype=np.float64).reshape(-1)
         if SEAM is not None:
-            SEAM.kernel_eval(self, z, val, kind)
+            SEAM.kernel_eval(self, before, val, kind, mutated=not np.array_equal(before, np.asarray(z, dtype=np.float64), equal_nan=True))
         return v
 
     def run_mcmc(self, initial_state, nsteps, progress=False, **kw):
